@@ -1,2 +1,45 @@
 import AtreeModel
-def main : IO Unit := IO.println "atree_model"
+import AtreeModel.Replay.Array
+/-
+  atree_model: replays a trace (stdin) on the Lean model and compares every line the
+  implementation produced with the model's own rendering.
+
+    atree_model array   < array-1.trace
+
+  Output: `RESULT {json}`; exit status 0 = all lines agree, 1 = disagreement, 2 = usage.
+-/
+open Atree Atree.Replay
+
+def jsonStr (s : String) : String :=
+  "\"" ++ (s.foldl (fun acc c =>
+    if c == '"' then acc ++ "\\\""
+    else if c == '\\' then acc ++ "\\\\"
+    else if c == '\n' then acc ++ "\\n"
+    else acc.push c) "") ++ "\""
+
+def reportJson (kind : String) (r : Report) : String :=
+  "{\"stream\":" ++ jsonStr kind ++
+  ",\"lines\":" ++ toString r.lines ++
+  ",\"ops\":" ++ toString r.ops ++
+  ",\"compared\":" ++ toString r.compared ++
+  ",\"mismatches\":" ++ toString r.nMismatch ++
+  ",\"first\":[" ++ ",".intercalate (r.mismatches.reverse.map jsonStr) ++ "]" ++
+  ",\"tags\":{" ++ ",".intercalate (r.tags.map (fun p => jsonStr p.1 ++ ":" ++ toString p.2)) ++ "}}"
+
+partial def loopArray (h : IO.FS.Stream) (s : ArrState) (n : Nat) : IO ArrState := do
+  let line ← h.getLine
+  if line.isEmpty then return s
+  let line := (line.dropRightWhile (fun c => c == '\n' || c == '\r'))
+  loopArray h (s.stepLine line n) (n + 1)
+
+def main (args : List String) : IO UInt32 := do
+  let stdin ← IO.getStdin
+  match args with
+  | ["array"] =>
+    let s ← loopArray stdin {} 1
+    let s := if s.pending.isEmpty then s else s.note s!"end of trace: model expected further lines: {s.pending}"
+    IO.println ("RESULT " ++ reportJson "array" s.rep)
+    return (if s.rep.nMismatch == 0 then 0 else 1)
+  | _ =>
+    IO.eprintln "usage: atree_model <array> < trace"
+    return 2
